@@ -4,53 +4,49 @@
 From Verif Require Import MemBuf.Model MemBuf.ProofsKMap MemBuf.ProofsLog MemBuf.ProofsSim MemBuf.ProofsObs
   MemBuf.ProofsSet MemBuf.ProofsRevert MemBuf.ProofsStep MemBuf.ProofsProps.
 
-(* 1. Refinement.  Over ALL operation sequences (mutators and observers, valid and invalid handles /
-   tokens) in which no step reverts to a checkpoint below which a value was overwritten in place
-   afterwards (ghost predicate no_hazard of the L1 run; sequences without Checkpoint trivially
-   qualify), every result of L1 equals the result of L0 — values, tombstones, flags, Len/Size/Dirty,
-   iteration, snapshot reads, InspectStage, SelectValueHistory, handles returned by Staging, tokens
-   returned by Checkpoint, errors — and the final states are related by the abstraction Sim
-   (journals = the log cut at the stage positions, kf = the non-deleted table entries,
-   Len/Size counters = the computed ones). *)
+(* 1. Refinement.  Over ALL operation sequences — mutators and observers, valid and invalid handles /
+   tokens, reverts to ANY live checkpoint (taken inside or outside staging levels, older than a released
+   level, revert / overwrite / revert again) — every result of L1 equals the result of L0: values,
+   tombstones, flags, Len/Size/Dirty, iteration, snapshot reads, InspectStage, SelectValueHistory, handles
+   returned by Staging, tokens returned by Checkpoint, errors; and the final states are related by the
+   abstraction Sim (journals = the log cut at the stage positions, kf = the non-deleted table entries,
+   Len/Size counters = the computed ones, lastCheckpoint = the reference's latest checkpoint point,
+   saved copies = the log prefixes below the token positions).
+   No ghost hypothesis: since fix 6b4091a (a value written before the latest checkpoint is never overwritten
+   in place) the former counterexample F03/F03b is gone. *)
 Theorem C08_L1_refines_L0 :
-  forall ops : list op, no_hazard init1 ops = true ->
+  forall ops : list op,
     run1 init1 ops = run0 init0 ops /\ Sim (exec1 init1 ops) (exec0 init0 ops).
-Proof. intros ops H. exact (run_refines ops init1 init0 sim_init H). Qed.
+Proof. intros ops. exact (run_refines ops init1 init0 sim_init). Qed.
 Print Assumptions C08_L1_refines_L0.
-
-(* unconditional corollary: sequences that never take a checkpoint *)
-Theorem C08_refines_without_checkpoint :
-  forall ops : list op, forallb not_checkpoint ops = true -> run1 init1 ops = run0 init0 ops.
-Proof.
-  intros ops H. apply C08_L1_refines_L0. apply no_checkpoint_no_hazard; [exact all_nil_init|exact H].
-Qed.
-Print Assumptions C08_refines_without_checkpoint.
 
 (* one step, from any related pair of states *)
 Theorem C08_step_commutes :
-  forall s1 s0 o, Sim s1 s0 -> hazard1 s1 o = false ->
+  forall s1 s0 o, Sim s1 s0 ->
     Sim (fst (step1 s1 o)) (fst (step0 s0 o)) /\ snd (step1 s1 o) = snd (step0 s0 o).
 Proof. exact step_sim. Qed.
 Print Assumptions C08_step_commutes.
 
-(* 2. The same statement without the ghost hypothesis is what a user expects of RevertToCheckpoint.
-   The code (and therefore L1) refutes it: KNOWN FINDING F03b. *)
-Definition C08_revert_checkpoint : Prop :=
+(* 2. RevertToCheckpoint at full strength (formerly refuted by the code, F03b): the code's log walk gives
+   exactly what the reference gives by restoring the saved copy of the level. *)
+Theorem C08_revert_checkpoint :
   forall ops : list op, run1 init1 ops = run0 init0 ops.
+Proof. intros ops. exact (proj1 (C08_L1_refines_L0 ops)). Qed.
+Print Assumptions C08_revert_checkpoint.
 
+(* the old witness, now a regression: the revert undoes the same-length overwrite, also inside a stage *)
 Definition f03b_witness : list op :=
   [OSet [120] [97; 97] []; OCheckpoint; OSet [120] [98; 98] []; ORevert 0%nat; OGet [120]].
-
-Theorem C08_revert_checkpoint_refuted : ~ C08_revert_checkpoint.
-Proof. intro H. specialize (H f03b_witness). vm_compute in H. discriminate H. Qed.
-Print Assumptions C08_revert_checkpoint_refuted.
-
-(* the witness is exactly a revert to a tainted checkpoint; inside a staging level too *)
-Example f03b_witness_is_hazard : no_hazard init1 f03b_witness = false.
+Example f03b_fixed : run1 init1 f03b_witness = [RUnit; RNat 0; RUnit; RUnit; RVal (Some [97; 97])].
 Proof. vm_compute. reflexivity. Qed.
-Example f03b_in_stage :
-  run1 init1 (OStaging :: f03b_witness) <> run0 init0 (OStaging :: f03b_witness).
-Proof. vm_compute. discriminate. Qed.
+Example f03b_fixed_in_stage :
+  run1 init1 (OStaging :: f03b_witness) = [RNat 1; RUnit; RNat 0; RUnit; RUnit; RVal (Some [97; 97])].
+Proof. vm_compute. reflexivity. Qed.
+(* the protection is exactly lastCheckpoint: without a checkpoint the overwrite is still done in place *)
+Example inplace_without_checkpoint :
+  run1 init1 [OSet [120] [97; 97] []; OSet [120] [98; 98] []; OHist [120] PAny; OHist [120] (PLenLe 0)] =
+    [RUnit; RUnit; RVal (Some [98; 98]); RNil].
+Proof. vm_compute. reflexivity. Qed.
 
 (* 3. Snapshot reads ignore staged data: while at least one stage stays open no operation changes the
    base level, hence no snapshot Get; the snapshot iteration returns exactly the base level's pairs. *)
@@ -65,12 +61,11 @@ Qed.
 Print Assumptions C08_snapshot_ignores_staged.
 
 Theorem C08_snapshot_iter_is_base :
-  forall ops, no_hazard init1 ops = true ->
-  forall lo hi k v,
+  forall ops lo hi k v,
     let s0 := exec0 init0 ops in
     In (k, v) (iter_list (base0 s0) lo hi (kf0 s0)) <-> (kfind k (base0 s0) = Some v /\ in_bounds lo hi k = true).
 Proof.
-  intros ops H lo hi k v s0. destruct (C08_L1_refines_L0 ops H) as [_ HS].
+  intros ops lo hi k v s0. destruct (C08_L1_refines_L0 ops) as [_ HS].
   exact (snapshot_iter_is_base _ _ lo hi k v HS).
 Qed.
 Print Assumptions C08_snapshot_iter_is_base.
@@ -158,13 +153,11 @@ Proof. intros s h o. destruct (release0_keeps h s) as [Ea Ek]. apply obs0_values
 Print Assumptions C08_release_keeps.
 
 (* ---- non-vacuity ---- *)
-(* a sequence with stages, checkpoints, a (clean) revert, tombstones, flags: satisfies no_hazard *)
+(* a sequence with stages, checkpoints, reverts, tombstones, flags *)
 Definition nv_ops : list op :=
   [OSet [1] [97; 97] [SetKeyLocked]; OStaging; OCheckpoint; OSet [1] [98; 98; 98] []; OSet [2] [] [];
    OFlags [3] [SetPresumeKeyNotExists]; OCheckpoint; OSet [2] [99] []; ORevert 1%nat; OGet [2]; ORevert 0%nat;
    OGet [1]; OSnapGet [1]; OIterFlags [] []; OCleanup 1%nat; OLen; OSize].
-Example nv_no_hazard : no_hazard init1 nv_ops = true.
-Proof. vm_compute. reflexivity. Qed.
 Example nv_outputs :
   run0 init0 nv_ops =
     [RUnit; RNat 1; RNat 0; RUnit; RUnit; RUnit; RNat 1; RUnit; RUnit; RVal (Some []); RUnit;
